@@ -59,4 +59,4 @@ mod table;
 // Verification hook: compiled only by `cargo kani` (cfg(kani)); see /verif/MANIFEST.json.
 #[cfg(kani)]
 #[path = "/verif/units/kx/compiler/lib.rs"]
-mod verif_kani_lib;
+pub mod verif_kani_lib;
